@@ -140,6 +140,19 @@ def composites():
                          act(seq(label("z", lit("@\n", i=True)), opt(any_())), b_rec("s2")),
                          act(label("w", star(cls(chars="\t_", inv=True, i=True))), b_rec("s3")))),
     ], alphabet_extra="\t\x10\x11\x19\x0a*)1 `@"))
+    out.append(grammar("c_longclass", [
+        rule("S", act(seq(label("x", cls(chars="abcdefghijk\u00e9")), label("y", opt(cls(chars="lmnopqrstu", ranges=[("0", "9")], i=True)))), b_rec("s"))),
+    ], alphabet_extra="0"))
+    # a right-recursive rule that starts with a class containing U+FFFD (the rune an end of input is read as)
+    out.append(grammar("c_rrfffd", [
+        rule("S", act(seq(label("x", ref("Chars")), not_(any_())), b_rec("s"))),
+        rule("Chars", choice(seq(ref("Char"), ref("Chars")), lit(""))),
+        rule("Char", cls(chars="ab\ufffd")),
+    ]))
+    # the same case-insensitive literal in three spellings (equal once lower-cased; the spelling shows in messages)
+    out.append(grammar("c_icase3", [
+        rule("S", act(seq(label("x", choice(seq(lit("ab", i=True), lit("c")), seq(lit("AB", i=True), lit("d")), seq(lit("aB", i=True), lit("e")))), not_(any_())), b_rec("s"))),
+    ]))
     out.append(grammar("c_display", [
         rule("S", act(seq(label("x", ref("Id")), lit("c")), b_rec("s")), display="start"),
         rule("Id", act(plus(cls(ranges=[("a", "b")])), b_text()), display="identifier"),
@@ -274,6 +287,37 @@ def state_catalogue():
     gf("star", lambda: star(seq(incj(), lit("a"), lit("b"))))
     gf("act", lambda: seq(act(lit("a"), b_amut("j")), opt(lit("b")), incj()))
     gf("pred", lambda: seq(andcode(p_mut("j")), lit("a"), incj()))
+    return out
+
+
+def state_lr_catalogue():
+    """Left-recursive rules with state blocks (C05 under -support-left-recursion): in the base alternative (also one
+    that matches the empty string), in the recursive alternative before and after the recursive reference's
+    operand, and in a helper rule the recursion passes through. S observes the store after E."""
+    out = []
+    inc = lambda: state(s_inc("k"))
+    obs = lambda m: andcode(p_state("k", m))
+    def g(name, e_alts, extra=(), twice=False):
+        if twice:
+            # E is evaluated a second time at the same offset after the first alternative of S has failed
+            s_body = choice(act(seq(label("e", ref("E")), obs(0), label("r", opt(any_()))), b_rec("even")),
+                            act(seq(label("e", ref("E")), obs(1), label("r", opt(any_()))), b_rec("odd")))
+        else:
+            s_body = act(seq(label("e", ref("E")), label("p", choice(act(obs(0), b_const("even")), act(obs(1), b_const("odd")))), label("r", opt(any_()))), b_rec("s"))
+        rules = [rule("S", s_body), rule("E", choice(*e_alts), lr=True)] + list(extra)
+        out.append(grammar("stlr_" + name, rules, needs_lr=True))
+    add = lambda *items: act(seq(label("l", ref("E")), *items), b_rec("add"))
+    g("emptybase", [add(lit("a"), inc()), inc()])
+    g("base", [add(lit("a")), seq(inc(), lit("b"))])
+    g("alt", [add(inc(), lit("a")), lit("b")])
+    g("altfail", [add(lit("a"), inc(), lit("c")), lit("b")])
+    g("both", [add(lit("a"), inc()), seq(lit("b"), inc()), inc()])
+    g("helper", [ref("Zh"), lit("b")], extra=[rule("Zh", act(seq(inc(), label("l", ref("E")), lit("a")), b_rec("step")))])
+    # (the helper's name sorts after E: E is the leader, as the reference assumes; with a helper that sorts first the
+    # helper would grow the seed and the blocks of discarded attempts would observe other intermediate stores)
+    g("helper2", [ref("Zk"), seq(inc(), lit("b"))], extra=[rule("Zk", act(seq(label("l", ref("E")), lit("a"), inc()), b_rec("step")))])
+    # finding F21: the second evaluation of a left-recursive rule at one offset is answered from the leader's memo entry
+    g("twice", [add(inc(), lit("a")), lit("b")], twice=True)
     return out
 
 
@@ -560,6 +604,22 @@ def opt_catalogue():
     g("unused", [rule("S", top(ref("A"))), rule("A", lit("a")), rule("U", act(lit("u"), b_rec("U")))], entries=["", "U"])
     # same label name in caller and inlined callee
     g("lblclash", [rule("S", act(seq(label("v", lit("a")), label("q", ref("A"))), b_rec("s"))), rule("A", seq(label("v", lit("b")), opt(lit("c"))))], tags=["inlined-label-clash"])
+    # the same with an unlabelled reference: inlining puts the callee's label into the caller's scope. On the tree as
+    # given the optimized parser does not compile (finding F13); if it ever does, the caller's action must still see
+    # its own label
+    g("lblclash2", [rule("S", act(seq(label("v", cls(ranges=[("a", "b")])), ref("A"), label("t", opt(any_()))), b_rec("s"))), rule("A", seq(label("v", lit("c")), opt(lit("d"))))],
+      tags=["inlined-label-clash", "known-if-not-type-checking:F13"])
+    # a negative predicate over a one-character matcher directly followed by the any matcher (the usual way to write
+    # "anything but"): every combination of literal / class, i and ^, written in place and through a leaf rule
+    k = 0
+    for t in (lit("b"), lit("b", i=True), lit("B", i=True), cls(chars="ab"), cls(chars="ab", i=True), cls(chars="AB", i=True), cls(chars="a", inv=True), cls(ranges=[("a", "b")], inv=True, i=True)):
+        k += 1
+        g("notany%d" % k, [rule("S", top(seq(star(seq(not_(json_copy(t)), any_())), opt(lit("b")))))])
+        g("notanyr%d" % k, [rule("S", top(seq(star(seq(not_(ref("Stop")), any_())), opt(ref("Stop"))))), rule("Stop", json_copy(t))])
+    # a diamond of references: B becomes inlinable only after its users A1 and A2 were visited; A1 also uses A2 and
+    # has a literal between the two references (merge order)
+    g("diamond", [rule("S", top(plus(ref("A1")))), rule("A1", choice(ref("A2"), lit("x"), ref("B"))), rule("A2", choice(seq(lit("-"), ref("B")), lit("y"))),
+                  rule("B", choice(lit("1"), ref("C"))), rule("C", lit("0"))])
     return out
 
 
@@ -625,6 +685,9 @@ def cyclic_catalogue():
     g("recthrow", [top(), rule("A", recover(seq(ref("H"), lit("z")), ["l1"], ref("F"))), rule("H", choice(lit("b"), throw("l1"))),
                    rule("F", choice(seq(ref("A"), lit("q")), lit("f")))])
     g("choicepredn", [top(), rule("A", choice(not_(lit("x")), seq(ref("N"), ref("A"), lit("y")))), rule("N", opt(lit("n")))])
+    # the throw sits in another rule than the handler: H throws, the handler in A runs F, F calls H again at the same position
+    g("throwcross", [top(), rule("A", recover(ref("H"), ["l1"], ref("F"))), rule("H", choice(lit("b"), throw("l1"))),
+                     rule("F", seq(ref("H"), lit("x")))])
     return out
 
 
@@ -653,7 +716,11 @@ def random_grammars(seed, count, features=("pred", "label", "act"), depth=3):
     out = []
     terms = [lambda: lit("a"), lambda: lit("b"), lambda: lit("ab"), lambda: lit("c"), lambda: lit("B", i=True),
              lambda: cls(ranges=[("a", "b")]), lambda: cls(chars="bc"), lambda: cls(chars="a", inv=True), lambda: any_(),
-             lambda: cls(chars="c", i=True)]
+             lambda: cls(chars="c", i=True),
+             # the same case-insensitive literal in another spelling (equal once lower-cased, different in messages)
+             lambda: lit("b", i=True), lambda: lit("aB", i=True), lambda: lit("Ab", i=True),
+             # "anything but": a negative predicate over a one-character matcher, then the any matcher
+             lambda: seq(not_(lit("b", i=True)), any_()), lambda: seq(not_(cls(chars="ac")), any_())]
     n = 0
     attempts = 0
     while len(out) < count and attempts < count * 20:
